@@ -174,7 +174,7 @@ func c11Bounded(eng *Engine, tier string, seed int64) *BoundedResult {
 	if tier == "thorough" {
 		depth = 6
 	}
-	out := runReplayTest(repoDir(), filepath.Join(repoDir(), "container"), fmt.Sprintf(c11TestSrc, depth))
+	out := runHarness(repoDir(), filepath.Join(repoDir(), "container"), fmt.Sprintf(c11TestSrc, depth))
 	res := &BoundedResult{
 		What:  "SortedSliceSet and MapSet driven next to a reference set (Values, Len, Has, Range, Equal of clones, independence of clones), RingBuffer next to a reference window (Range, ReverseRange, Len, Current)",
 		Bound: fmt.Sprintf("every sequence of at most %d operations over {Add 1..3, Delete 1..2, Clear, Clone} from 5 initial argument lists (nil, empty, duplicates, unsorted); ring buffers of size 0..3 with every sequence of at most %d pushes / clears", depth, depth+2),
